@@ -1,19 +1,24 @@
-(* C10 — the column-handle / catalogue protocol on the query path and in the flush thread (DESIGN F14, F14a).
+(* C10 — the column-handle / catalogue protocol on the query path and in the flush thread, AFTER the repairs
+   3a6284a (catalogue look-ups by `get`) and 7a0a728 (flush skips placeholder handles); DESIGN F14, F14a, F14b.
 
    Transcribed from
      src/mem_store/partition.rs          Partition::{from_buffer (ephemeral = true), new (compaction: ephemeral =
-                                         false), nonresident (restart: no handles), get_cols, clone_column_handles}
-     src/disk_store/meta_store.rs        MetaStore::subpartition_has_been_loaded / subpartition_key:
-                                         self.partitions[table][&partition]   (index: panics on a missing key)
-     src/scheduler/inner_locustdb.rs     flush_table_buffer (batch; clone handles; c.try_get().unwrap()),
-                                         wal_flush (persist_partitions after batching), compact (get_cols of every
-                                         table column on every old partition; Table::compact; prepare_compact)
+                                         false), nonresident (restart: no handles), get_cols, evict,
+                                         clone_column_handles}
+     src/disk_store/meta_store.rs        MetaStore::subpartition_has_been_loaded (missing entry => true),
+                                         subpartition_key (missing entry => None)
+     src/scheduler/disk_read_scheduler.rs get_or_load: load_column = None => handle.set_empty()
+     src/scheduler/inner_locustdb.rs     flush_table_buffer (batch; clone handles, skip placeholders, unwrap the
+                                         rest), wal_flush (persist_partitions after batching), compact (get_cols of
+                                         every table column on every old partition; Table::compact; prepare_compact)
 
    Partition objects are never destroyed (a query holds an Arc); `tparts` is the table's partition map, `cat` the
-   catalogue (id -> stored columns).  Every batch carries the column set C, compaction's column-name set is C.
+   catalogue (id -> columns stored in the partition's files).  Every batch carries the column set C, compaction's
+   column-name set is C; so for a column in C an EMPTY handle is a wrong answer (an existing column reported as
+   absent: the query returns NULLs, the compaction writes NULLs, the flush persists the partition without it).
    get_cols is modelled as ONE step (handle look-up, catalogue look-up, load): the window between the look-up and
    the disk load is not modelled (the harness parks queries there, label get_or_load:load).
-   Panics are program counters (CF_panic, CQ_panic).  Definitions only. *)
+   Panics and wrong answers are program counters (CF_panic, CF_lost, CQ_panic, CQ_wrong).  Definitions only. *)
 From Coq Require Import List Bool Arith.
 Import ListNotations.
 
@@ -25,22 +30,23 @@ Record pobj := mkP { p_id : nat; p_eph : bool; p_h : list (nat * hk) }.
 Inductive cfpc :=
 | CF_idle
 | CF_batched (p : nat)                   (* Table::batch registered partition p *)
-| CF_cloned (p : nat)                    (* its handles cloned and unwrapped *)
+| CF_cloned (p : nat) (cols : list nat)  (* its non-placeholder handles cloned and unwrapped: the columns to persist *)
 | CF_persisted                           (* persist_partitions inserted it into the catalogue *)
 | CF_built (olds : list nat)             (* compact: every column of every old partition read *)
 | CF_swapped (olds : list nat) (n : nat) (* Table::compact done; prepare_compact pending *)
-| CF_panic.
+| CF_panic                               (* c.try_get().as_ref().unwrap() on a dropped column *)
+| CF_lost.                               (* the compaction read an existing column as absent: it writes NULLs *)
 
 Inductive cqpc :=
 | CQ_idle
 | CQ_run (todo : list nat) (col : nat)   (* snapshot taken; partitions still to be read for column col *)
-| CQ_panic.
+| CQ_panic
+| CQ_wrong.                              (* the query was answered with an existing column reported as absent *)
 
 Inductive cact :=
 | CBatch | CClone | CPersist | CSkip | CBuild (i : nat) | CSwap | CPrepare
 | CSnapshot (col : nat) | CGetCols
-| CEvict.                                (* evict_cache / the memory-limit thread: every resident column of every
-                                            partition reachable through the table map is dropped *)
+| CEvict (p col : nat).                  (* Table::evict of one column (evict_cache / the memory-limit thread) *)
 
 Record cstate := mkC {
   objs : list pobj; tparts : list nat; cat : list (nat * list nat); cnext : nat;
@@ -61,51 +67,43 @@ Fixpoint find_obj (p : nat) (l : list pobj) : option pobj :=
   | o :: r => if Nat.eqb p (p_id o) then Some o else find_obj p r
   end.
 
+(* the handle of column col becomes h (new handles are inserted in front: assoc sees the newest) *)
 Definition add_handle (p col : nat) (h : hk) (l : list pobj) : list pobj :=
   map (fun o => if Nat.eqb p (p_id o) then mkP (p_id o) (p_eph o) ((col, h) :: p_h o) else o) l.
 
 Inductive gc_result := GCok (objs' : list pobj) | GCpanic | GCstuck.
 
-(* Partition::get_cols for one column *)
+(* Partition::get_cols for one column, on the repaired code: no outcome is a panic any more *)
 Definition get_cols (os : list pobj) (ct : list (nat * list nat)) (p col : nat) : gc_result :=
   match find_obj p os with
   | None => GCstuck                                   (* impossible: the caller holds an Arc *)
   | Some o =>
       match assoc col (p_h o) with
       | Some HEvicted =>
-          (* get_or_load of a non-resident handle: Storage::load_column -> MetaStore::subpartition_key indexes the
-             catalogue, for ephemeral partitions too *)
+          (* get_or_load of a non-resident handle: Storage::load_column -> MetaStore::subpartition_key; a missing
+             catalogue entry now yields None: load_column returns None and the handle is set_empty() *)
           match assoc p ct with
-          | None => GCpanic
+          | None => GCok (add_handle p col HEmpty os)
           | Some stored => GCok (add_handle p col (if memn col stored then HRes else HEmpty) os)
           end
       | Some _ => GCok os                             (* handle present (resident or placeholder) *)
       | None =>
           if p_eph o then GCok (add_handle p col HEmpty os)           (* self.ephemeral || .. => ColumnHandle::empty *)
           else match assoc p ct with
-               | None => GCpanic                      (* partitions[table][&id]: no entry found for key *)
+               | None => GCok (add_handle p col HEmpty os)            (* partition_has_been_loaded: None => true *)
                | Some stored => GCok (add_handle p col (if memn col stored then HRes else HEmpty) os)
                end
       end
   end.
 
-Fixpoint get_cols_all (os : list pobj) (ct : list (nat * list nat)) (work : list (nat * nat)) : gc_result :=
-  match work with
-  | [] => GCok os
-  | (p, c) :: r =>
-      match get_cols os ct p c with
-      | GCok os' => get_cols_all os' ct r
-      | x => x
-      end
+(* how column col of partition p is seen after get_cols *)
+Definition sees_empty (os : list pobj) (p col : nat) : bool :=
+  match find_obj p os with
+  | Some o => match assoc col (p_h o) with Some HEmpty => true | _ => false end
+  | None => false
   end.
 
-Definition all_res (o : pobj) : bool := forallb (fun h => match snd h with HRes => true | _ => false end) (p_h o).
-
-(* Partition::evict for every column of every partition in the table map *)
-Definition evict_all (tp : list nat) (os : list pobj) : list pobj :=
-  map (fun o => if memn (p_id o) tp
-                then mkP (p_id o) (p_eph o) (map (fun ch => (fst ch, match snd ch with HRes => HEvicted | x => x end)) (p_h o))
-                else o) os.
+Inductive gca_result := GAok (objs' : list pobj) | GAlost (objs' : list pobj) | GAstuck.
 
 Fixpoint updq (n : nat) (x : cqpc) (l : list cqpc) : list cqpc :=
   match l, n with
@@ -114,10 +112,49 @@ Fixpoint updq (n : nat) (x : cqpc) (l : list cqpc) : list cqpc :=
   | y :: r, S m => y :: updq m x r
   end.
 
+(* clone_column_handles().filter(|c| !c.is_empty()).map(|c| c.try_get().as_ref().unwrap().clone()):
+   the columns that will be persisted; None = unwrap of a dropped (evicted) column.  `seen` = columns already
+   decided by a newer handle *)
+Fixpoint clone_cols (seen : list nat) (h : list (nat * hk)) : option (list nat) :=
+  match h with
+  | [] => Some []
+  | (c, k) :: r =>
+      if memn c seen then clone_cols seen r
+      else match k, clone_cols (c :: seen) r with
+           | HRes, Some l => Some (c :: l)
+           | HEmpty, Some l => Some l
+           | HEvicted, _ => None
+           | _, None => None
+           end
+  end.
+
+(* Partition::evict: the column is dropped, the handle stays *)
+Definition evict_one (tp : list nat) (p col : nat) (os : list pobj) : list pobj :=
+  if memn p tp then
+    match find_obj p os with
+    | Some o => match assoc col (p_h o) with
+                | Some HRes => add_handle p col HEvicted os
+                | _ => os
+                end
+    | None => os
+    end
+  else os.
+
 Section WithColumns.
   Variable C : list nat.
 
   Definition full_handles : list (nat * hk) := map (fun c => (c, HRes)) C.
+
+  (* compact: get_cols of every table column on every old partition; an existing column read as absent is lost *)
+  Fixpoint get_cols_all (os : list pobj) (ct : list (nat * list nat)) (work : list (nat * nat)) : gca_result :=
+    match work with
+    | [] => GAok os
+    | (p, c) :: r =>
+        match get_cols os ct p c with
+        | GCok os' => if memn c C && sees_empty os' p c then GAlost os' else get_cols_all os' ct r
+        | _ => GAstuck
+        end
+    end.
 
   Definition fstep (a : cact) (st : cstate) : option cstate :=
     match cfl st, a with
@@ -128,11 +165,11 @@ Section WithColumns.
         match find_obj p (objs st) with
         | None => None
         | Some o =>
-            (* clone_column_handles().map(|c| c.try_get().as_ref().unwrap()): a placeholder has no column *)
-            Some (mkC (objs st) (tparts st) (cat st) (cnext st) (if all_res o then CF_cloned p else CF_panic) (cqs st))
+            Some (mkC (objs st) (tparts st) (cat st) (cnext st)
+                      (match clone_cols [] (p_h o) with Some cols => CF_cloned p cols | None => CF_panic end) (cqs st))
         end
-    | CF_cloned p, CPersist =>
-        Some (mkC (objs st) (tparts st) (cat st ++ [(p, C)]) (cnext st) CF_persisted (cqs st))
+    | CF_cloned p cols, CPersist =>
+        Some (mkC (objs st) (tparts st) (cat st ++ [(p, cols)]) (cnext st) CF_persisted (cqs st))
     | CF_persisted, CSkip => Some (mkC (objs st) (tparts st) (cat st) (cnext st) CF_idle (cqs st))
     | CF_persisted, CBuild i =>
         let olds := skipn i (tparts st) in
@@ -140,9 +177,9 @@ Section WithColumns.
         | [] => None
         | _ =>
             match get_cols_all (objs st) (cat st) (list_prod olds C) with
-            | GCok os' => Some (mkC os' (tparts st) (cat st) (cnext st) (CF_built olds) (cqs st))
-            | GCpanic => Some (mkC (objs st) (tparts st) (cat st) (cnext st) CF_panic (cqs st))
-            | GCstuck => None
+            | GAok os' => Some (mkC os' (tparts st) (cat st) (cnext st) (CF_built olds) (cqs st))
+            | GAlost os' => Some (mkC os' (tparts st) (cat st) (cnext st) CF_lost (cqs st))
+            | GAstuck => None
             end
         end
     | CF_built olds, CSwap =>
@@ -168,7 +205,9 @@ Section WithColumns.
             Some (mkC (objs st) (tparts st) (cat st) (cnext st) (cfl st) (updq n CQ_idle (cqs st)))
         | CQ_run (p :: r) col, CGetCols =>
             match get_cols (objs st) (cat st) p col with
-            | GCok os' => Some (mkC os' (tparts st) (cat st) (cnext st) (cfl st) (updq n (CQ_run r col) (cqs st)))
+            | GCok os' =>
+                Some (mkC os' (tparts st) (cat st) (cnext st) (cfl st)
+                          (updq n (if memn col C && sees_empty os' p col then CQ_wrong else CQ_run r col) (cqs st)))
             | GCpanic => Some (mkC (objs st) (tparts st) (cat st) (cnext st) (cfl st) (updq n CQ_panic (cqs st)))
             | GCstuck => None
             end
@@ -176,10 +215,11 @@ Section WithColumns.
         end
     end.
 
-  (* thread None = the flush thread, Some n = querier n *)
+  (* thread None = the flush thread, Some n = querier n; evictions come from any thread *)
   Definition cstep (t : option nat) (a : cact) (st : cstate) : option cstate :=
     match a with
-    | CEvict => Some (mkC (evict_all (tparts st) (objs st)) (tparts st) (cat st) (cnext st) (cfl st) (cqs st))
+    | CEvict p col =>
+        Some (mkC (evict_one (tparts st) p col (objs st)) (tparts st) (cat st) (cnext st) (cfl st) (cqs st))
     | _ => match t with None => fstep a st | Some n => qstep n a st end
     end.
 
@@ -194,23 +234,26 @@ Section WithColumns.
     mkC (map (fun i => mkP i false []) (seq 0 nd)) (seq 0 nd) (map (fun i => (i, C)) (seq 0 nd)) nd
         CF_idle (repeat CQ_idle nq).
 
-  (* the columns the queries of a schedule reference *)
-  Fixpoint sched_cols (sched : list (option nat * cact)) : list nat :=
-    match sched with
-    | [] => []
-    | (_, CSnapshot c) :: r => c :: sched_cols r
-    | _ :: r => sched_cols r
-    end.
-  Fixpoint sched_evicts (sched : list (option nat * cact)) : bool :=
-    match sched with
-    | [] => false
-    | (_, CEvict) :: _ => true
-    | _ :: r => sched_evicts r
-    end.
+  (* every catalogue entry stores every column of C *)
+  Definition cat_complete (st : cstate) : bool :=
+    forallb (fun e => forallb (fun c => memn c (snd e)) C) (cat st).
+
+  Definition data_lost (st : cstate) : bool :=
+    match cfl st with CF_lost => true | _ => false end || negb (cat_complete st).
 End WithColumns.
+
+Fixpoint sched_evicts (sched : list (option nat * cact)) : bool :=
+  match sched with
+  | [] => false
+  | (_, CEvict _ _) :: _ => true
+  | _ :: r => sched_evicts r
+  end.
 
 Definition query_panicked (st : cstate) : bool :=
   existsb (fun q => match q with CQ_panic => true | _ => false end) (cqs st).
+
+Definition query_wrong (st : cstate) : bool :=
+  existsb (fun q => match q with CQ_wrong => true | _ => false end) (cqs st).
 
 Definition flush_panicked (st : cstate) : bool :=
   match cfl st with CF_panic => true | _ => false end.
